@@ -25,5 +25,13 @@ OneOdd == UNION {{[k |-> "up", op |-> op, kind |-> kd, shapes |-> [Plain(n) EXCE
 Partial == UNION {{[k |-> "up", op |-> op, kind |-> kd, shapes |-> [Plain(n) EXCEPT ![i] = sh], fault |-> NoFault, lists |-> li] :
                       i \in 1..n, sh \in {"plain", "dotdot", "abs"}, li \in {"sha256only", "sha1only", "nofiles"}} :
                    op \in Ops, kd \in Kinds, n \in 1..2}
-ASSUME Emit(SetToSeq(AllPlain \cup OneOdd \cup Stale) \o SetToSeq(Partial))
+\* sequences of operations on ONE handle: every sequence of up to 3 of {copy a, copy b, move a, move b, remove}
+\* in which no step targets the directory the handle is already in (and nothing follows a remove)
+OpSet == {[op |-> "copy", to |-> "a"], [op |-> "copy", to |-> "b"], [op |-> "move", to |-> "a"], [op |-> "move", to |-> "b"], [op |-> "remove", to |-> ""]}
+RECURSIVE Where(_, _)
+Where(ops, k) == IF k = 0 THEN "src" ELSE IF ops[k].op = "remove" THEN "gone" ELSE ops[k].to
+SeqOK(ops) == \A k \in 1..Len(ops) : Where(ops, k - 1) # "gone" /\ (ops[k].op = "remove" \/ ops[k].to # Where(ops, k - 1))
+OpSeqs == {s \in UNION {[1..m -> OpSet] : m \in 2..3} : SeqOK(s)}
+Seqs == {[k |-> "upseq", kind |-> kd, n |-> n, ops |-> s] : kd \in Kinds, n \in {1, 2}, s \in OpSeqs}
+ASSUME Emit(SetToSeq(AllPlain \cup OneOdd \cup Stale) \o SetToSeq(Partial) \o SetToSeq(Seqs))
 =============================================================================
